@@ -215,25 +215,26 @@ def judge(case: dict, real: list[str]) -> str | None:
                 return f"O5 leftover[end]: task ended with cancelling()={kv['cancelling']}, external cancels={ext_seen}"
 
     # O7: external cancel is not lost
+    lost: list[tuple[int, int]] = []      # (trace position of the lost cancel, first operation that completed after it)
     for pos in ext_pos:
         later = lines[pos + 1:]
-        absorbed = False
-        for p in later:
-            if p[0] == "swallow" or (p[0] == "exit" and "caught=1" in p):
-                absorbed = True
-                break
-        if absorbed:
-            continue
+        if any(p[0] == "swallow" or (p[0] == "exit" and "caught=1" in p) for p in later):
+            continue     # absorbed by a racing scope catch / user code
         for p in later:
             if p[0] == "blk":
                 sid = int(p[1])
                 if st.task[sid] != -1 or st.shielded[sid] or W[sid][0] == "syield":
                     continue
                 if done_at.get(sid) == "ret":
-                    how = "merged" if _merged_with_redelivery(st, W, lines, pos) else "other"
-                    return f"O7 external[{how}]: operation {sid} started after the external cancel() and completed"
+                    lost.append((pos, sid))
+                    break
+    if lost:
+        # the open finding covers the run only if EVERY lost cancel has its signature
+        how = "merged" if all(_merged_with_redelivery(st, W, lines, pos) for pos, _ in lost) else "other"
+        return f"O7 external[{how}]: operation {lost[0][1]} started after the external cancel() and completed"
 
     # O8: the cancellation a task group sends to its host when a child fails is not lost either
+    lost = []
     for pos, g in grp_pos:
         later = []
         for p in lines[pos + 1:]:
@@ -249,9 +250,12 @@ def judge(case: dict, real: list[str]) -> str | None:
                 if sid not in body or st.task[sid] != -1 or st.shielded[sid] or W[sid][0] == "syield":
                     continue
                 if done_at.get(sid) == "ret":
-                    how = "merged" if _merged_with_redelivery(st, W, lines, pos) else "other"
-                    return (f"O8 group cancel[{how}]: operation {sid} of the body of task group {g} started after a child "
-                            f"failed (the group cancelled its host task) and completed")
+                    lost.append((pos, sid, g))
+                    break
+    if lost:
+        how = "merged" if all(_merged_with_redelivery(st, W, lines, pos) for pos, _, _ in lost) else "other"
+        return (f"O8 group cancel[{how}]: operation {lost[0][1]} of the body of task group {lost[0][2]} started after a "
+                f"child failed (the group cancelled its host task) and completed")
     return None
 
 
@@ -271,26 +275,99 @@ def _body_ids(W, g: int) -> set[int]:
     return out
 
 
+def _tick(p: list[str]) -> int | None:
+    if p[0] in ("blk", "ret", "exc", "err", "icancel", "imm", "do", "enter", "exit", "sin", "sout", "gin", "gout", "cin",
+                "cout", "swallow", "caught", "raise", "fut") and len(p) > 2:
+        return int(p[2])
+    if p[0] in ("ext", "end", "deadlock") and len(p) > 1:
+        return int(p[1])
+    return None
+
+
 def _merged_with_redelivery(st: Static, W, lines, pos: int) -> bool:
-    """signature of finding `ext-cancel-lost`: the external cancel() arrived while the task was parked at a shielded
-    operation, and a scope of the task was (or later got) cancelled before leaving: the shield driver remembers ONE
-    swallowed CancelledError message (the last one; two requests in one loop turn arrive as one error carrying the
-    first message), so the scope's request replaces the external one and the scope's __exit__ then discards the
-    delayed re-delivery as its own"""
-    parked = None
-    for p in lines[:pos]:
-        if p[0] == "blk" and st.task[int(p[1])] == -1:
-            parked = p
-        elif p[0] in ("ret", "exc", "err", "icancel") and parked is not None and p[1] == parked[1]:
+    """signature of the open finding `ext-cancel-lost,shielded,scope-cancel-interleaved`, for the one-shot cancellation
+    (external cancel() / task group cancelling its host) recorded at trace position `pos`:
+      (a) it arrived while the task was inside a shielded section: an `ignore_cancellation` block of the task (whatever
+          the task was parked on inside it: an operation, a task group's join, …) or a `cancel_shielded_coro_yield`;
+          the section lasts until the task's next unshielded checkpoint (nested blocks, and blocks that follow one
+          another with no checkpoint in between, keep the cancellation postponed: one section), and
+      (b) a cancel scope of the task that was still active when it arrived, or was entered later, had or got
+          `cancel_called()` before that shielded section ended.
+    Mechanism: the shield driver remembers ONE swallowed CancelledError message (the last one; two requests in one loop
+    turn arrive as one error carrying the first message), so the scope's request replaces the external one and the
+    scope's __exit__ then discards the delayed re-delivery as its own.
+    Anything else (a cancel lost with no scope cancelled, or outside any shield) is NOT this finding."""
+    INF = float("inf")
+    # ---- (a) the shielded section around `pos`
+    depth = 0
+    parked = None         # blk line of the main task's current operation
+    for i, p in enumerate(lines[:pos]):
+        k = p[0]
+        if k == "sin" and st.task[int(p[1])] == -1:
+            depth += 1
+        elif k == "sout" and st.task[int(p[1])] == -1:
+            depth -= 1
+        elif k == "blk" and st.task[int(p[1])] == -1:
+            parked = (i, p)
+        elif k in ("ret", "exc", "err", "icancel") and parked is not None and p[1] == parked[1][1]:
             parked = None
-    if parked is None:
+    if depth == 0 and not (parked is not None and W[int(parked[1][1])][0] == "syield"):
         return False
-    sid = int(parked[1])
-    if not (st.shielded[sid] or W[sid][0] == "syield"):
-        return False
-    # some scope of the task issued cancel requests afterwards or around that moment
-    for p in lines[pos:]:
-        if p[0] == "exit" and st.task[int(p[1])] == -1 and "called=1" in p:
+    # the cancellation stays postponed until the task's next unshielded checkpoint: shielded sections that follow one
+    # another without a checkpoint in between form one section
+    end = len(lines) - 1
+    for i in range(pos, len(lines)):
+        p = lines[i]
+        if p[0] == "blk" and st.task[int(p[1])] == -1 and not st.shielded[int(p[1])] and W[int(p[1])][0] != "syield":
+            end = i
+            break
+    end_tick = next((t for t in (_tick(lines[i]) for i in range(end, -1, -1)) if t is not None), 0)
+    # ---- (b) when did each scope of the main task get cancel_called()?  (explicit cancel, pre-cancelled, deadline;
+    # cross-checked with what the exit line says; a deadline equal to the tick of the section's end counts: tie)
+    deadline: dict[int, float] = {}
+    called: dict[int, float] = {}
+    enter_pos: dict[int, int] = {}
+    exit_pos: dict[int, int] = {}
+    exit_called: dict[int, bool] = {}
+    for i, p in enumerate(lines):
+        k = p[0]
+        if k == "enter" and st.task[int(p[1])] == -1:
+            sid = int(p[1])
+            enter_pos[sid] = i
+            d = W[sid][2]
+            deadline[sid] = INF if d == "inf" else int(p[2]) + int(d)
+            if W[sid][3] == "1":
+                called[sid] = int(p[2])
+        elif k == "do":
+            sid = int(p[1])
+            w = W[sid]
+            if st.task[sid] == -1:
+                target = st.scopes[sid][int(w[1])]
+                if w[0] == "cancel":
+                    called.setdefault(target, int(p[2]))
+                elif w[0] == "resched" and target not in called and deadline.get(target, INF) >= int(p[2]):
+                    deadline[target] = INF if w[2] == "inf" else int(p[2]) + int(w[2])
+        elif k == "blk" and st.task[int(p[1])] == -1 and p[3] != "-":
+            for j, s in enumerate(st.scopes[int(p[1])]):
+                if p[3][j] == "1":
+                    called.setdefault(s, min(int(p[2]), deadline.get(s, INF)))
+        elif k == "exit" and st.task[int(p[1])] == -1:
+            sid = int(p[1])
+            exit_pos[sid] = i
+            exit_called[sid] = "called=1" in p
+            if exit_called[sid]:
+                called.setdefault(sid, min(int(p[2]), deadline.get(sid, INF)))
+    for s in enter_pos:
+        if s in exit_pos and not exit_called[s]:
+            continue
+        if exit_pos.get(s, len(lines)) <= pos:
+            continue      # the scope had already exited when the cancellation arrived
+        if enter_pos[s] >= end:
+            continue      # entered after the shielded section
+        when = called.get(s)
+        if when is None and s not in exit_pos:
+            when = deadline.get(s, INF)      # the task ended inside the scope: only the deadline is known
+        if when is not None and when <= end_tick:
             return True
     return False
 
